@@ -209,7 +209,8 @@ class Kinds:
         if t[0] == 'comp' and t[1] == 'list' and len(t[3]) == 1 and not t[3][0][1]:
             it = t[3][0][0]
             elt = t[2]
-            if elt[0] == 'sub' and elt[1] == ('c', ALPHA) and elt[2][0] == 'iter' and elt[2][1] == it:
+            if elt[0] == 'sub' and (elt[1] == ('c', ALPHA) or (elt[1][0] == 'v' and elt[1][1] == 'nucleotides')) \
+                    and elt[2][0] == 'iter' and elt[2][1] == it:
                 if self.live_set(it, f) is not None:
                     return it
         return None
